@@ -77,6 +77,29 @@ fn fix_ident_conflicts(sig: &mut syn::Signature) {
             }
         }
     }
+
+    // `__impl` is the name of the parameter that the macro inserts for delegation targets (it comes first):
+    // a parameter of the user's that is called the same gives way
+    let mut seen_impl_param = false;
+    for fn_arg in sig.inputs.iter_mut() {
+        if let syn::FnArg::Typed(pat_type) = fn_arg {
+            if let syn::Pat::Ident(param_ident) = pat_type.pat.as_mut() {
+                if param_ident.ident == "__impl" {
+                    if seen_impl_param {
+                        let mut new_ident_string = String::from("__impl_");
+                        while taken_idents.contains(&new_ident_string) {
+                            new_ident_string.push('_');
+                        }
+                        taken_idents.insert(new_ident_string.clone());
+
+                        param_ident.ident =
+                            syn::Ident::new(&new_ident_string, param_ident.ident.span());
+                    }
+                    seen_impl_param = true;
+                }
+            }
+        }
+    }
 }
 
 fn taken_idents(sig: &syn::Signature) -> HashSet<String> {
